@@ -1161,6 +1161,24 @@ pub fn world_b_silence(property: &str, scenario: &str, seed: u64, run: u64, thor
     if r.chance(0.3) {
         plan.push(r.range(0, horizon), r.u32() | 1, Op::ClockJump { ep: 0, us: r.log_range(100_000, 5_000_000) });
     }
+    // a trickle of datagrams that are no frames at all (noise, corrupted copies) reaches one of
+    // the endpoints, several per step: they are skipped, the frames queued behind them are read
+    if r.chance(0.3) && cad.period_us >= 10_000 {
+        let victim = if r.chance(0.7) { 0 } else { topo.clients[0] };
+        let from = if victim == 0 { topo.clients[0] } else { 0 };
+        let t0 = r.range(1_000_000, horizon / 2);
+        let t1 = (t0 + r.range(5_000_000, 40_000_000)).min(horizon);
+        let gap = (cad.period_us / r.range(2, 5)).max(2_000);
+        let mut t = t0;
+        let mut n = 0;
+        while t < t1 && n < 20_000 {
+            let len = r.range(1, 40) as usize;
+            let bytes: Vec<u8> = (0..len).map(|_| r.below(256) as u8).collect();
+            plan.push(t, 0x8000_0002, Op::Inject { to: victim, from, bytes, twin: false });
+            t += gap;
+            n += 1;
+        }
+    }
     // blackouts (one or both directions) around the timeout length
     let mut t = r.range(2_000_000, 30_000_000);
     for _ in 0..r.range(0, 3) {
